@@ -83,3 +83,18 @@ End FP.
 (* lhash is a reduced value *)
 Lemma w64_range x : 0 <= w64 x < M64.
 Proof. rewrite w64_mod. unfold M64. apply Z.mod_pos_bound. lia. Qed.
+
+(* the two hypotheses of fingerprint_injective_on are satisfiable by a non-trivial family under the
+   concrete Hash128to64 / CH64-over-24-bytes transcriptions (CH64 on strings from a table) *)
+Definition ex_tbl : list (string * Z) := [("app"%string, 568117394947613772); ("api"%string, 3180468642210779003); ("db"%string, 587013140500348660)].
+Definition ex_F (l : list label) : Prop :=
+  l = [("app"%string, "api"%string)] \/ l = [("app"%string, "db"%string)] \/ l = [("api"%string, "app"%string)].
+Example injective_hyps_satisfiable :
+  (forall l1 l2, ex_F l1 -> ex_F l2 -> determs (tbl_ch64 ex_tbl) hash128to64 l1 = determs (tbl_ch64 ex_tbl) hash128to64 l2 -> Permutation l1 l2) /\
+  (forall l1 l2, ex_F l1 -> ex_F l2 ->
+     fin24 (determs (tbl_ch64 ex_tbl) hash128to64 l1) = fin24 (determs (tbl_ch64 ex_tbl) hash128to64 l2) ->
+     determs (tbl_ch64 ex_tbl) hash128to64 l1 = determs (tbl_ch64 ex_tbl) hash128to64 l2).
+Proof.
+  split; intros l1 l2 [-> | [-> | ->]] [-> | [-> | ->]] H;
+    try apply Permutation_refl; try reflexivity; vm_compute in H; discriminate H.
+Qed.
